@@ -66,7 +66,19 @@ type Case struct {
 	// two stored clauses that come from one term instance are still two clauses
 	Twice  bool       `json:"twice,omitempty"`
 	DQ     string     `json:"dq"` // double_quotes flag in force: chars | codes
+	// Under: the variables of the clause texts are written _V0, _V1, … (named variables all the same)
+	Under bool `json:"under,omitempty"`
 	Probes []*rt.Term `json:"probes"`
+}
+
+func (c Case) names(ids []int64) map[int64]string {
+	m := rt.VarNames(ids)
+	if c.Under {
+		for k, v := range m {
+			m[k] = "_" + v
+		}
+	}
+	return m
 }
 
 func (c Case) mode() string {
@@ -105,7 +117,7 @@ func (c Case) assertQuery(i int) string {
 	for _, b := range c.Binds[i] {
 		ids = b.goal().Vars(ids)
 	}
-	names := rt.VarNames(ids)
+	names := c.names(ids)
 	var gs []string
 	for _, b := range c.Binds[i] {
 		gs = append(gs, gen.TextStr(b.goal(), names))
@@ -203,7 +215,11 @@ func (x *gg) term(d int) *rt.Term {
 }
 
 func (x *gg) simple() *rt.Term {
-	switch k := x.n(0, 11, "goal"); {
+	switch k := x.n(0, 12, "goal"); {
+	case k == 12:
+		gv := x.v()
+		x.goalVars[gv.I] = true
+		return rt.C("call", gv) // (bound to ! when the clause is added: still a cut local to the call)
 	case k < 2:
 		return rt.C("n", x.v())
 	case k < 3:
@@ -276,7 +292,9 @@ func (x *gg) noIte(t *rt.Term) *rt.Term {
 func (x *gg) bindVal(goal bool) *rt.Term {
 	if goal {
 		w := rt.V(int64(20 + x.n(0, 3, "w")))
-		switch x.n(0, 4, "gval") {
+		switch x.n(0, 5, "gval") {
+		case 5:
+			return rt.A("!") // as a body goal: the clause's own cut; under call/1: local
 		case 0:
 			return rt.C("n", w)
 		case 1:
@@ -344,6 +362,7 @@ func genCase() *rapid.Generator[Case] {
 		}
 		c.Reverse = x.p(30, "reverse")
 		c.Twice = x.p(15, "twice")
+		c.Under = x.p(15, "under")
 		c.DQ = []string{"chars", "codes"}[x.n(0, 1, "dq")]
 		for _, s := range sigs {
 			args := make([]*rt.Term, s.arity)
@@ -406,7 +425,7 @@ func check(c Case) (st stats, err error) {
 		if path == "exec" {
 			for k := range c.Clauses {
 				e := c.expectedSrc(k)
-				b.WriteString(gen.TextStr(e, rt.VarNames(e.Vars(nil))) + ".\n")
+				b.WriteString(gen.TextStr(e, c.names(e.Vars(nil))) + ".\n")
 			}
 		}
 		if e := i.Exec(b.String(), 2_000_000); e != nil {
@@ -630,7 +649,7 @@ func init() {
 func TestProp(t *testing.T) {
 	r := h.Start(t, "C10")
 	defer r.Finish(t)
-	r.Rule("rapid-generated clause sets for k/1, k/2, j/2: heads and body-goal arguments with atoms, integers, floats, double-quoted strings, nested compounds (same functor at several arities), proper and partial lists of length 0-6, repeated and singleton variables; bodies with 1-4 goals (also left-nested conjunctions), variable goals, cut, \\+, if-then-else, top-level disjunctions (2-3 alternatives), a disjunction whose left operand is a variable; per clause a set of bindings in force at assert time (data terms, strings, partial lists, and for goal variables callable terms including an if-then term). Every set is added through Exec text and through assertz (or asserta in reverse order) under the bindings. Oracles on both paths: clause/2 lists exactly the clauses added, in order, as variants of the source term with the bindings applied; probe queries (all-variable and partially instantiated) answer as the reference machine does on those terms; the compiled instruction list of every clause (hook VerifClauses) decompiles to the source clause (same head arguments, goals in order, variable sharing) and its stored term is the source term; retract((H:-B)) enumerates and removes the same clauses in order. Shard 0 also validates every clause of bootstrap.pl against its compiled form. Non-trivial: a clause with a body goal and a compound/list head argument and at least one variable. Distinct by case.",
+	r.Rule("rapid-generated clause sets for k/1, k/2, j/2: heads and body-goal arguments with atoms, integers, floats, double-quoted strings, nested compounds (same functor at several arities), proper and partial lists of length 0-6, repeated and singleton variables; bodies with 1-4 goals (also left-nested conjunctions), variable goals (bare and under call/1; bound, when the clause is added, to callable terms including ! ), cut, \\+, if-then-else, top-level disjunctions (2-3 alternatives), a disjunction whose left operand is a variable; per clause a set of bindings in force at assert time (data terms, strings, partial lists, and for goal variables callable terms including an if-then term). In one case in seven the variables of the clause texts carry names that begin with an underscore. Every set is added through Exec text and through assertz (or asserta in reverse order) under the bindings. Oracles on both paths: clause/2 lists exactly the clauses added, in order, as variants of the source term with the bindings applied; probe queries (all-variable and partially instantiated) answer as the reference machine does on those terms; the compiled instruction list of every clause (hook VerifClauses) decompiles to the source clause (same head arguments, goals in order, variable sharing) and its stored term is the source term; retract((H:-B)) enumerates and removes the same clauses in order. Shard 0 also validates every clause of bootstrap.pl against its compiled form. Non-trivial: a clause with a body goal and a compound/list head argument and at least one variable. Distinct by case.",
 		"the decompiler (props/c10/decompile.go) over the VerifClauses hook; the reference machine for behaviour",
 		"the splitting of top-level disjunctions into one compiled clause per disjunct is the compiler's documented design and is mirrored by the expected form")
 	if r.Shard() == 0 {
